@@ -51,7 +51,22 @@ def _simple_statements(fnode):
     return out
 
 
-def fingerprint(f):
+def _kw_canon(n, kw, mode='exec'):
+    """The node with the keyword arguments of calls to repository functions in normal form
+    (inline.positional_keywords), as a fresh tree; the node itself when nothing applies."""
+    if not kw or not any(isinstance(x, ast.Call) and x.keywords for x in ast.walk(n)):
+        return n
+    from .inline import positional_keywords
+    try:
+        c = ast.parse(unparse(n), mode=mode)
+    except SyntaxError:
+        return n
+    if not positional_keywords(c, kw):
+        return n
+    return c.body[0] if mode == 'exec' else c.body
+
+
+def fingerprint(f, kw=None):
     node = f.node
     attrs, names, calls, consts = [], [], [], []
     for n in own_nodes(node):
@@ -60,6 +75,7 @@ def fingerprint(f):
         elif isinstance(n, ast.Name) and isinstance(n.ctx, ast.Load):
             names.append(n.id)
         elif isinstance(n, ast.Call):
+            n = _kw_canon(n, kw, 'eval')
             calls.append([unparse(n.func), [unparse(a) for a in n.args] +
                           ['%s=%s' % (k.arg, unparse(k.value)) for k in n.keywords]])
         elif isinstance(n, ast.Constant) and isinstance(n.value, int) and \
@@ -71,7 +87,7 @@ def fingerprint(f):
                     isinstance(gp, ast.Slice):
                 consts.append(n.value)
     simple = _simple_statements(node)
-    stmts = [unparse(s) for s in simple]
+    stmts = [unparse(_kw_canon(s, kw)) for s in simple]
     compound_ids = {}
     for n in own_nodes(node):
         if isinstance(n, (ast.If, ast.For, ast.AsyncFor, ast.While, ast.Try, ast.With)):
@@ -108,7 +124,7 @@ def build(pm):
     out = {}
 
     def add(f):
-        out[f.qualname] = fingerprint(f)
+        out[f.qualname] = fingerprint(f, pm.kw_table)
         for g in f.nested.values():
             add(g)
     for f in pm.functions.values():
@@ -178,6 +194,9 @@ def compare(ref, cur, vocab, local_names, local_names_ref=frozenset()):
                 st = r[i]
                 if not any(st.startswith(p) or ('.' + p + '.') in st or st.startswith('self.' + p)
                            for p in LOGGING) and not st.startswith(('assert ', 'pass')):
+                    if st.startswith(('return', 'continue', 'break')) and st in cur['stmts']:
+                        return out      # two exits with one text merged into one: decided by
+                        #                 the effect-condition rule
                     # `v = E` removed and E now written where v was read: the local was inlined
                     try:
                         a_ = ast.parse(st).body[0]
@@ -513,7 +532,19 @@ def _kw_sorted(text):
                 isinstance(getattr(n, 'ctx', ast.Load()), ast.Load):
             # the order of the items of a collection literal is data, not computation
             n.elts.sort(key=ast.unparse)
-    return ast.unparse(tree)
+    text = ast.unparse(tree)
+    if any(isinstance(n, ast.List) and n.elts and all(isinstance(e, ast.Constant) for e in n.elts)
+           for n in ast.walk(tree)):
+        # a list display of literals and the tuple of the same literals hold the same operands
+        class T(ast.NodeTransformer):
+            def visit_List(self, n):
+                self.generic_visit(n)
+                if n.elts and all(isinstance(e, ast.Constant) for e in n.elts) and \
+                        isinstance(n.ctx, ast.Load):
+                    return ast.Tuple(elts=n.elts, ctx=ast.Load())
+                return n
+        text = ast.unparse(T().visit(tree))
+    return text
 
 
 def _is_effect(text):
@@ -576,7 +607,7 @@ def run(pm, ctx, rule, patterns, min_funcs=1):
         if r is None:
             continue
         n += 1
-        cur = fingerprint(f)
+        cur = fingerprint(f, pm.kw_table)
         d = defs(f.node)
         local_names = set(d.values) | set(f.params)
         g = f.parent
